@@ -28,13 +28,14 @@ type shownRec struct {
 }
 
 type riObs struct {
-	Ord       int
-	MonitorID string
-	NS, Name  string
-	Shown     []shownRec
-	Snapshots []int64 // seq of getCachedObjects calls
-	Unlocks   []int64 // seq of enableKubeEventCb calls
-	loaded    bool
+	Ord        int
+	CreatedSeq int64
+	MonitorID  string
+	NS, Name   string
+	Shown      []shownRec
+	Snapshots  []int64 // seq of getCachedObjects calls
+	Unlocks    []int64 // seq of enableKubeEventCb calls
+	loaded     bool
 }
 
 // qStatus: one status change of a queue worker (TaskQueue.SetStatus).
@@ -47,6 +48,7 @@ type qStatus struct {
 type Observer struct {
 	QStatus   map[string][]qStatus // per queue name
 	NsiStart  map[string]int64     // monitor id -> seq at which its namespace informer was started
+	MonCreate map[string]int64     // monitor id -> seq of the last CreateInformers call (a retried enabling task creates the monitor again)
 	StopSeq   int64                // seq at which TaskQueueSet.WaitStopWithTimeout was entered (= TaskQueues.Stop() returned)
 	StopAt    time.Duration
 	e         *Env
@@ -56,7 +58,7 @@ type Observer struct {
 }
 
 func NewObserver(e *Env) *Observer {
-	o := &Observer{e: e, ris: map[any]*riObs{}, QStatus: map[string][]qStatus{}, NsiStart: map[string]int64{}, pendingL1: map[int64]*riObs{}}
+	o := &Observer{e: e, ris: map[any]*riObs{}, QStatus: map[string][]qStatus{}, NsiStart: map[string]int64{}, MonCreate: map[string]int64{}, pendingL1: map[int64]*riObs{}}
 	e.S.Observer = o.observe
 	return o
 }
@@ -64,7 +66,7 @@ func NewObserver(e *Env) *Observer {
 func (o *Observer) ri(ptr any, mon, ns, name any) *riObs {
 	r := o.ris[ptr]
 	if r == nil {
-		r = &riObs{Ord: len(o.Order) + 1, MonitorID: fmt.Sprint(mon), NS: fmt.Sprint(ns), Name: fmt.Sprint(name)}
+		r = &riObs{CreatedSeq: o.e.Seq(), Ord: len(o.Order) + 1, MonitorID: fmt.Sprint(mon), NS: fmt.Sprint(ns), Name: fmt.Sprint(name)}
 		o.ris[ptr] = r
 		o.Order = append(o.Order, r)
 	}
@@ -78,6 +80,8 @@ func (o *Observer) observe(name string, args ...any) {
 			o.StopSeq = o.e.Seq()
 			o.StopAt = o.e.Since()
 		}
+	case "mon.create":
+		o.MonCreate[fmt.Sprint(args[0])] = o.e.Seq()
 	case "nsi.start":
 		if _, ok := o.NsiStart[fmt.Sprint(args[0])]; !ok {
 			o.NsiStart[fmt.Sprint(args[0])] = o.e.Seq()
@@ -129,11 +133,15 @@ func (o *Observer) ListServed(items []*unstructured.Unstructured) {
 	}
 }
 
-// ByMonitor returns the observed informers of a monitor in creation order.
+// ByMonitor returns the observed informers of a monitor in creation order. When the task that enables
+// a hook's bindings fails and is retried, the monitor is created again under the same id and the first
+// instance is dropped (its informers may keep receiving events that go nowhere): only the informers
+// created since the last `CreateInformers` call of that monitor id count.
 func (o *Observer) ByMonitor(id string) []*riObs {
 	var out []*riObs
+	since := o.MonCreate[id]
 	for _, r := range o.Order {
-		if r.MonitorID == id {
+		if r.MonitorID == id && r.CreatedSeq >= since {
 			out = append(out, r)
 		}
 	}
